@@ -4,6 +4,7 @@ import (
 	"fmt"
 	"go/token"
 	"go/types"
+	"strings"
 
 	"golang.org/x/tools/go/ssa"
 
@@ -29,6 +30,8 @@ func boolFieldGuards(f *ssa.Function, fld *types.Var) []kit.Guard {
 }
 
 func checkC16(p *load.Program, r *kit.Report) {
+	importRules(p, r, "C04", "the block handler ends (and sends Complete) only when the node closes the tx channel: every exit of the node's handleBlock after the handler was started closes it, or Run and the manager's shutdown wait for ever", 1,
+		func(o *kit.Obligation) bool { return strings.Contains(o.Construct, "close-txChannel-once") }, "MUST-PASS")
 	r.Rule("RESULT-FLOW", "BlockDownloader.Run returns the value it received on Complete; the on-complete thread hands onDownloaderCompleted the value it received from the download thread", 3)
 	checkRunReturnsReceived(p, r, "RESULT-FLOW")
 	checkCompletedGetsThreadResult(p, r, "RESULT-FLOW")
